@@ -17,14 +17,15 @@ let () =
   reg_typed "deccost" (fun t args -> match args with
     | [mode; strict; sizes; h] ->
         let bs = bytes_of_hex h in
-        let (r, c) = M.dec_cost (sz_fun (parse_sizes sizes)) (strict = "1") (t ()) bs in
+        let (r, c) = M.dec_cost (sz_fun (parse_sizes sizes)) (bool_of strict) (t ()) bs in
         let rs = (match mode with
           | "deserialize" -> res_s (fun (v, rest) -> string_of_val v ^ " " ^ hex_of_bytes rest) r
-          | _ -> (* try_from_slice / from_slice: nothing may be left; no further allocation *)
+          | "try_from_slice" | "from_slice" -> (* nothing may be left; no further allocation *)
               (match r with
                | M.Ok (v, []) -> "ok " ^ string_of_val v ^ " -"
                | M.Ok (_, _ :: _) -> "err InvalidData NotAllBytesRead"
-               | _ -> res_s (fun _ -> "") r)) in
+               | _ -> res_s (fun _ -> "") r)
+          | m -> failwith ("deccost: mode " ^ m)) in
         rs ^ "\t" ^ cost_s c
     | _ -> failwith "deccost: args");
   (* cautious SIZE HINT -> ok N | panic W : the model's hint::cautious *)
